@@ -19,12 +19,12 @@ type Monitor struct {
 	Conds []string // cond field names
 
 	// per cond field
-	Waits      map[string][]*WaitLoop     // wait loops on the cond
-	Broadcasts map[string][]CondOp        // broadcast/signal sites
+	Waits      map[string][]*WaitLoop            // wait loops on the cond
+	Broadcasts map[string][]CondOp               // broadcast/signal sites
 	Waiters    map[string]map[*ssa.Function]bool // W*(c): functions on one monitor object that reach a Wait on c
-	Pred       map[string]map[string]bool // monitor-relative locations the wait tests read
-	Own        map[string]map[string]bool // locations stored by W*(c)
-	Foreign    map[string]map[string]bool // Pred \ Own
+	Pred       map[string]map[string]bool        // monitor-relative locations the wait tests read
+	Own        map[string]map[string]bool        // locations stored by W*(c)
+	Foreign    map[string]map[string]bool        // Pred \ Own
 
 	// functions whose monitor accesses are rooted at a *Monitor parameter
 	Domain map[*ssa.Function]bool
